@@ -25,6 +25,17 @@ def handle (line : String) : String :=
         let nodes := List.range g.n
         let cert := DomRef.checkDomTree g r.idom
         s!"ok {",".intercalate (nodes.map fun v => showDom (r.dom v))}|{showNats r.order}|{showNats (nodes.map r.dfnum)}|{showOpts (nodes.map r.parent)}|cert={if cert then 1 else 0}"
+  | ["domq", n, entry, e, c] =>
+    -- same model, without the O(n^3) certificate check (graphs with thousands of nodes);
+    -- `domlt_correct` (Props/C18.lean) makes the certificate redundant
+    match parseGraph n entry e c with
+    | none => "bad-op"
+    | some g =>
+      if !g.wfb then "not-wf" else
+      match domLT g with
+      | none => "err"
+      | some r =>
+        s!"ok {",".intercalate ((List.range g.n).map fun v => showDom (r.dom v))}|{showNats r.order}"
   | ["domref", n, entry, e, c] =>
     match parseGraph n entry e c with
     | none => "bad-op"
